@@ -94,6 +94,8 @@ ERROR_CLASSES: dict[str, dict[str, Any]] = {
     # exactly one byte beyond the reach of an 8-bit displacement, in each direction
     "branch_plus_128": {"scope": "asm", "text": "bra edge_zq\n.dw " + ", ".join(["0"] * 64) + "\nedge_zq:"},
     "branch_minus_129": {"scope": "asm", "text": "edgeb_zq:\n.dw " + ", ".join(["0"] * 63) + "\n.db 0\nbne edgeb_zq"},
+    # a short branch whose target is exactly 64 KiB further in the ROM image (another section)
+    "branch_64k_away": {"scope": "asm", "text": "*=$B64A\nbra far64_zq\n*=$B64B\nfar64_zq:\nnop", "top_only": True},
     "unmapped_bank": {"scope": "asm", "text": "*=$UNMAPPED"},
     # the 65c816 bus is 24 bits wide: an address above it is not mapped, whatever its low 24 bits are
     "address_beyond_24_bits": {"scope": "asm", "text": "*=0x1008000\n.db 1"},
@@ -106,6 +108,7 @@ ERROR_CLASSES: dict[str, dict[str, Any]] = {
 
 
 ROM_END = {"low": 0x6FFFFC, "low2": 0xFFFFFC, "high": 0xFFFFFC}
+B64 = {"low": (0x208000, 0x228000), "low2": (0xA08000, 0xA28000), "high": (0x500000, 0x510000)}  # 64 KiB apart in the file
 
 
 # every bank at an edge of an unmapped range of the default mappings (low2 leaves no bank unmapped)
@@ -115,6 +118,8 @@ UNMAPPED_BANKS = {"low": [0x70, 0x72, 0x7D, 0xD0, 0xE0, 0xEF, 0xF0, 0xFF], "high
 def error_node(klass: str, prog: progen.Prog, addr: int | None = None) -> progen.Node:
     unmapped = addr if addr is not None else prog.unmapped_addr
     text = ERROR_CLASSES[klass]["text"].replace("$UNMAPPED", hex(unmapped)).replace("$ROMEND", hex(ROM_END.get(prog.mapping, 0)))
+    b64 = B64.get(prog.mapping, (0, 0))
+    text = text.replace("$B64A", hex(b64[0])).replace("$B64B", hex(b64[1]))
     return {"k": "error", "t": text}
 
 
@@ -149,7 +154,7 @@ def gen_case(cseed: int, tier: str) -> dict[str, Any]:
     defines: list[tuple[str, str]] = []
     if "defines" in feats:
         defines = [("DEF0", w.choice(["0x12", "7", "0b101"])), ("DEF1", w.choice(["0", "1"])), ("DEF2", w.choice(["1", "2", "3"]))][: w.randrange(1, 4)]
-    prog = progen.gen_program(w, mapping, feats, defines, size=w.choice([6, 10, 14]))
+    prog = progen.gen_program(w, mapping, feats, defines, size=w.choice([6, 10, 14]) if w.random() < 0.95 else 70)
     return {"type": "base", "prog": prog.to_record(), "seed": cseed, "copier": w.random() < 0.5, "cli_format": w.choice(["ips", "ips", "sfc"]), "tier": tier}
 
 
@@ -347,7 +352,7 @@ def sub_cases(case: dict[str, Any], stats: Stats) -> Iterator[dict[str, Any]]:
     for klass in ERROR_CLASSES:
         if klass == "unmapped_bank" and not prog.unmapped_addr:
             continue
-        if klass in ("run_off_mapped_rom", "address_beyond_24_bits") and "map" in prog.features:
+        if klass in ("run_off_mapped_rom", "address_beyond_24_bits", "branch_64k_away") and "map" in prog.features:
             continue  # a program that installs its own mapping decides what is mapped
         ok_slots = [s for s in slots if applicable(klass, s)]
         if not ok_slots:
